@@ -34,7 +34,10 @@
 //   mask bit 3 = SIGALRM ignored by the environment, mask bit 4 (16) = main() is run with --time-limit=3600 (it calls setAlarm itself);
 //   an expiring alarm is realised as raise(SIGALRM) at a scheduling point (decision 4) - the real timer never fires (alarm(0) at the
 //   end of every case).  "40"/"41" records: d1 d2 d3 d4 r.  Answers in OS-level modes: 0 stop, 2 = the callback first calls
-//   setAlarm(3600) and continues, 3 = calls setAlarm(3600) and stops, anything else continue.
+//   setAlarm(3600) and continues, 3 = calls setAlarm(3600) and stops, 4 = the callback first calls blockSignals() (not released by
+//   the callback: the main flow's next unblockSignals releases it) and continues, 5 = the callback first calls blockSignals();
+//   unblockSignals(true) (balanced) and continues, anything else continue.  (An unblockSignals alone inside a callback is never
+//   legal: a callback only runs when the application holds no block.)
 //   op 10 (OS-level modes only; ignored in direct mode) = the run ends with an exception: after the scheduling point "7 .." (the
 //   increment of shutdown(bool) follows) run() THROWS; Application::main() catches (catch (...)) and calls shutdown(true), which calls
 //   the application's onUnhandledException() - overridden here by a version that RETURNS (the default one calls exit) and that is a
@@ -109,6 +112,8 @@ struct App : public Potassco::Application {
 		o.add(20); o.add(toId(s));
 		ll code = ansPos < answers.size() ? answers[ansPos] : 1;
 		if (osMode && (code == 2 || code == 3)) { setAlarm(3600); }   // a callback that re-arms the alarm (grace period) as its first action
+		if (osMode && code == 4) { blockSignals(); }                          // a callback that takes a block and leaves it to the main flow to release it
+		if (osMode && code == 5) { blockSignals(); unblockSignals(true); }    // a callback with a balanced block / unblock pair of its own
 		yieldPoint(3);
 		if (ansPos < answers.size()) ++ansPos;
 		bool a = osMode ? !(code == 0 || code == 3) : code != 0;
